@@ -20,10 +20,11 @@ LEVEL = "model_checking"
 MANIFEST = dict(
     text="PoolSeq.tla is the sequential mechanism of pool/base.py + pool/impl.py (checkout with the two-attempt pre-ping / checkout-listener "
          "loop, get_connection recycle branches, _checkin_failed, reset-on-return, invalidate hard/soft, Pool._invalidate, finalizer "
-         "check-in, overflow accounting) with a fault choice at EVERY DBAPI call; TLC checks per configuration (pool class x pre_ping x "
+         "check-in, overflow accounting) with a fault choice at EVERY DBAPI call (ordinary errors everywhere; a BaseException "
+         "that is not an Exception at the full-queue close and at reset-on-return; a raising `close` listener); TLC checks per configuration (pool class x pre_ping x "
          "recycle x reset style x LIFO x listener) that once every holder released checkedout()=0 and every opened connection is idle or "
-         "closed, and that no invalidated / pool-invalidated / over-age connection is handed out.  Every edge of every graph (quick ~25k, "
-         "thorough ~350k edges) is replayed against the real QueuePool, AsyncAdaptedQueuePool, NullPool, StaticPool, SingletonThreadPool "
+         "closed, and that no invalidated / pool-invalidated / over-age connection is handed out.  Every edge of every graph (quick ~29k, "
+         "thorough ~440k edges) is replayed against the real QueuePool, AsyncAdaptedQueuePool, NullPool, StaticPool, SingletonThreadPool "
          "comparing outcome, DBAPI call sequence, connection ids, counters and the open/closed ledger after every step.",
     design_ref="3.5, 4 (C25/C26), 2.6, Appendix H",
     note="trusted: TLC, the fake DBAPI and its ledger, virtual time (every time.time() call yields a larger value - the code's documented "
